@@ -26,8 +26,11 @@ TRUSTED = [
 ]
 ASSUMPTIONS = [
     'positions that fall exactly on a half-integer are not generated (both neighbours are nearest)',
+    'a linked position that is not a finite number (NaN, +-inf from a partial link function) counts as outside the source: NaN / not selected',
     'subset states and data are not mutated between requests under one cache id (C05)',
-    'links through world coordinates are exercised by the oracle-only stream `world_links` with Identity / diagonal AffineCoordinates (C15 owns the coupled cases); dask components are not covered',
+    'links through world coordinates (stream world_seq) are modelled as affine functions of the reference pixel position whose reported dimensions are the '
+    'connected component computed by the harness; that the component covers the pixel axes used is the hypothesis wf_world of the theorems (C15 proves it for '
+    'dependent_axes); genuinely non-linear link functions (log2, sqrt, 1/x) are covered by the oracle-only stream `nonlinear`; dask components are not covered',
 ]
 
 ERR = {1: 'ValueError', 10: 'IncompatibleAttribute', 11: 'IncompatibleDataException'}
@@ -432,6 +435,7 @@ def direct(world, built_full, req):
     src = built_full[s]['attr' if w[0] == 'attr' else 'mask'][w[1]]
     shape_s = world.shapes[s]
     vals = []
+    nundef = 0
     for g in itertools.product(*[range(len(c)) for c in coords]):
         pos = [coords[j][g[j]] for j in range(len(coords))]
         idx = []
@@ -440,6 +444,7 @@ def direct(world, built_full, req):
             x = ev(tr, pos)
             if x is None:              # not a finite number: the sample corresponds to no pixel of the source
                 inside = False
+                nundef += 1
                 idx.append(0)
                 continue
             if (2 * x).denominator == 1 and x.denominator != 1:
@@ -453,7 +458,7 @@ def direct(world, built_full, req):
         else:
             vals.append(np.nan if w[0] == 'attr' else False)
     arr = np.array(vals, dtype=float if w[0] == 'attr' else bool).reshape(oshape)
-    return ('ok', arr)
+    return ('ok', arr, nundef)
 
 
 def run_impl(B, req, cache_id):
@@ -702,6 +707,21 @@ def gen_cspec(rng, n, allow_coupled=True):
     return ['aff', [[fs(x) for x in r] for r in M], [fs(x) for x in t]]
 
 
+def coords_kind(cspec):
+    if cspec[0] == 'id':
+        return 'identity'
+    M, _ = cspec_mt(cspec)
+    n = len(M)
+    off = [(i, j) for i in range(n) for j in range(n) if i != j and M[i][j] != 0]
+    if not off:
+        return 'diagonal'
+    if all(sum(1 for x in r if x != 0) == 1 for r in M):
+        return 'permuted'
+    if all(i < j for i, j in off) or all(i > j for i, j in off):
+        return 'sheared'
+    return 'coupled'
+
+
 def gen_world_w(rng):
     nt = rng.choice([1, 2, 2, 3, 3, 3])
     nds = rng.choice([2, 2, 2, 3])
@@ -859,7 +879,9 @@ def stream_sequences(R, name, nseq, maxlen, maxdim, maxsize, world_links=False):
         for r, (cached, plain, dr) in zip(seq, res):
             R.count((name, repr(spec), repr(r)), nontrivial=dr[0] == 'ok' and dr[1].size > 0 and r['s'] != r['t'],
                     stream=name, outcome=req_kind(world, r, dr), what=r['what'][0], cache=str(r['cache']),
-                    n_scalar_bounds=sum(1 for b in r['bounds'] if b[0] == 's'), same_frame=r['s'] == r['t'])
+                    n_scalar_bounds=sum(1 for b in r['bounds'] if b[0] == 's'), same_frame=r['s'] == r['t'],
+                    undefined_positions=(dr[0] == 'ok' and dr[2] > 0),
+                    ref_coords=(coords_kind(spec['coords'][0]) if world_links else 'none'))
         if i < 2:
             R.sample({'world': spec, 'requests': seq[:3]})
     outs = R.model(lines)
@@ -1113,6 +1135,105 @@ def stream_world_links(R):
     R.stream('world_links', requests=nreq, exhaustive=False, bound='LinkSame on world ids, Identity / diagonal AffineCoordinates, permuted axes, 1-3 dims')
 
 
+def _nl_log2(x):
+    with np.errstate(all='ignore'):
+        return 2 * np.log2(x)
+
+
+def _nl_sqrt(x):
+    with np.errstate(all='ignore'):
+        return 3 * np.sqrt(x) - 1
+
+
+def _nl_inv(x):
+    with np.errstate(all='ignore'):
+        return 4 / np.asarray(x, dtype=float)
+
+
+def _nl_lin(x):
+    return 0.5 * x + 1
+
+
+def stream_nonlinear(R):
+    """genuinely non-linear, partial link functions (logarithmic / square-root / reciprocal axis): NaN for x < 0, -inf / +inf at 0.
+    Oracle only (the functions are not rational): the same numpy function on the same sample positions, nearest index where the
+    result is finite, fill elsewhere; samples within 1e-6 of a half are not generated."""
+    from glue.core import Data, DataCollection
+    from glue.core.link_helpers import LinkSame
+    from glue.core.component_link import ComponentLink
+    from glue.core.fixed_resolution_buffer import compute_fixed_resolution_buffer
+    funcs = [('log2', _nl_log2), ('sqrt', _nl_sqrt), ('inv', _nl_inv), ('lin', _nl_lin)]
+    N = R.pick(150, 1200)
+    nreq = 0
+    for i in range(N):
+        rng = R.subrng('nonlinear', i)
+        nd = rng.choice([1, 2, 2])
+        sh_t = [rng.choice([2, 3])] * (nd - 1) + [rng.choice([6, 9, 12, 20])]
+        sh_s = [rng.choice([2, 3, 4])] * (nd - 1) + [rng.choice([4, 7, 9])]
+        fname, f = rng.choice(funcs[:3] * 3 + funcs[3:])
+        v = np.arange(int(np.prod(sh_s))).reshape(sh_s) + 10.
+        T = Data(x=np.zeros(sh_t), label='T')
+        S = Data(v=v, label='S')
+        dc = DataCollection([T, S])
+        dc.add_link(ComponentLink([T.pixel_component_ids[nd - 1]], S.pixel_component_ids[nd - 1], using=f))
+        if nd == 2:
+            dc.add_link(LinkSame(T.pixel_component_ids[0], S.pixel_component_ids[0]))
+        thr = float(v.mean())
+        state = S.id['v'] > thr
+        cid = 'nl%d' % i
+        ybound = None
+        for step in range(R.pick(4, 5)):
+            lo = rng.choice([-3, -2, -1, 0, -1.5, 0.25])
+            n = rng.choice([4, 6, 9, 12])
+            hi = lo + rng.choice([1, 1, 0.5, 2]) * (n - 1)
+            xb = (float(lo), float(hi), n)
+            if nd == 2 and (ybound is None or rng.random() < 0.6):
+                ybound = rng.choice([0, 1, sh_t[0] - 1, -1, (0.0, float(sh_t[0] - 1), sh_t[0])])
+            bounds = [xb] if nd == 1 else [ybound, xb]
+            xs = np.linspace(*xb)
+            px = np.asarray(f(xs), dtype=float)
+            fin = np.isfinite(px)
+            if np.any(np.abs(px[fin] - np.floor(px[fin]) - 0.5) < 1e-6):
+                continue
+            ix = np.where(fin, np.round(np.where(fin, px, 0)), -1).astype(int)
+            okx = fin & (ix >= 0) & (ix < sh_s[-1])
+            if nd == 1:
+                exp = np.where(okx, v[np.where(okx, ix, 0)], np.nan)
+            else:
+                ys = np.linspace(*ybound) if isinstance(ybound, tuple) else np.array([float(ybound)])
+                iy = np.round(ys).astype(int)
+                oky = (iy >= 0) & (iy < sh_s[0])
+                exp = np.where(oky[:, None] & okx[None, :], v[np.where(oky, iy, 0)[:, None], np.where(okx, ix, 0)[None, :]], np.nan)
+                if not isinstance(ybound, tuple):
+                    exp = exp[0]
+            what = rng.choice(['attr', 'attr', 'mask'])
+            if what == 'mask':
+                expected = ('ok', np.where(np.isnan(exp), False, exp > thr).astype(bool))
+                kw = {'subset_state': state}
+            else:
+                expected = ('ok', exp.astype(float))
+                kw = {'target_cid': S.id['v']}
+            outs = []
+            for c in (cid, None):
+                try:
+                    outs.append(('ok', np.array(compute_fixed_resolution_buffer(S, list(bounds), target_data=T, cache_id=c, **kw))))
+                except Exception as e:  # noqa
+                    outs.append(('err', type(e).__name__))
+            nreq += 1
+            R.count(('nl', i, step), nontrivial=True, stream='nonlinear', link_function=fname, what=what,
+                    undefined_positions=bool(np.any(~fin)))
+            case = {'stream': 'nonlinear', 'seed_index': i, 'step': step, 'function': fname, 'bounds': repr(bounds), 'what': what,
+                    'shapes': [sh_t, sh_s]}
+            if not same_out(outs[0], outs[1]):
+                oracle_fail(R, case, {'why': 'cached differs from uncached', 'cached': brief(outs[0]), 'uncached': brief(outs[1])}, 'cache-nonlinear')
+            if not same_out(outs[1], expected):
+                oracle_fail(R, case, {'why': 'buffer differs from nearest-pixel resampling through a partial non-linear link',
+                                      'impl': brief(outs[1]), 'expected': brief(expected)}, 'nearest-nonlinear')
+    R.stream('nonlinear', requests=nreq, exhaustive=False,
+             bound='2*log2(x), 3*sqrt(x)-1, 4/x, x/2+1 as one-way pixel links, 1-2 dims, bounds from x = -3 upwards (NaN for x < 0, +-inf at 0), '
+                   'value and mask requests, 4-5 requests per cache id; oracle only')
+
+
 def stream_round(R):
     """np.round(x).astype(int) against the model's round_half_even on exactly representable values, halves included"""
     vals = [F(k, 8) for k in range(-40, 41)] + [F(k, 2) for k in range(-21, 22)] + [F(10 ** 6 * 2 + 1, 2), F(-(10 ** 6 * 2 + 1), 2)]
@@ -1132,8 +1253,8 @@ def run(R):
     _nfail.clear()
     stream_round(R)
     stream_exhaustive(R)
-    n1 = stream_sequences(R, 'random', R.pick(1200, 10000), 12, 3, 4)
-    n2 = stream_sequences(R, 'world_seq', R.pick(400, 3000), 10, 3, 4, world_links=True)
+    n1 = stream_sequences(R, 'random', R.pick(1200, 8000), 12, 3, 4)
+    n2 = stream_sequences(R, 'world_seq', R.pick(400, 2000), 10, 3, 4, world_links=True)
     R.stream('world_seq', sequences=n2, exhaustive=False,
              bound='reference with identity / diagonal / permuted / sheared / coupled AffineCoordinates (1-3 dims), 1-2 sources with their own coordinates '
                    'linked by LinkSame on world ids (permuted, fewer dimensions, an unlinked axis); every sequence starts by stepping one scalar bound through '
@@ -1145,6 +1266,7 @@ def run(R):
     stream_malformed(R)
     stream_image_layers(R)
     stream_world_links(R)
+    stream_nonlinear(R)
     shrink_failures(R)
 
 
